@@ -13,11 +13,18 @@ def take : TakeFacts :=
 
 def validate : ValidateFacts :=
   { rejectsTrailingSegment := true, checkerPerMapping := true, streamCheckerKeepsChunkType := true,
-    ifaceCheckerGuardsNil := true }
+    ifaceCheckerGuardsNil := true, lastSegmentBelowIfaceIsIntermediate := true, derefsOnePointerLevel := true }
 
 def validateAsFound : ValidateFacts :=
   { rejectsTrailingSegment := false, checkerPerMapping := false, streamCheckerKeepsChunkType := false,
-    ifaceCheckerGuardsNil := false }
+    ifaceCheckerGuardsNil := false, lastSegmentBelowIfaceIsIntermediate := false, derefsOnePointerLevel := false }
+
+/-- the tree with every earlier repair, a last segment below a non-empty interface still let
+    through with the interface type as the slot type -/
+def validateIfaceLastLoose : ValidateFacts := { validate with lastSegmentBelowIfaceIsIntermediate := false }
+
+/-- the tree with every earlier repair, every pointer level still removed statically -/
+def validateDerefsAll : ValidateFacts := { validate with derefsOnePointerLevel := false }
 
 /-- the tree with every earlier repair, the interface-path checker still without its nil guard -/
 def validateNoNilGuard : ValidateFacts := { validate with ifaceCheckerGuardsNil := false }
